@@ -81,6 +81,16 @@ class ReplayTool:
             return dict(status='panic', text=p.stderr.strip()[-2000:], rc=101)
         return dict(status='crash', text=p.stderr.strip()[-2000:], rc=p.returncode)
 
+    def batch(self, items, timeout=120):
+        """items: [(cmd, json-able)] -> list of dicts (one per item) from `verif_replay batch`"""
+        self.ready()
+        text = ''.join(f'{cmd}\t{json.dumps(arg)}\n' for cmd, arg in items)
+        p = subprocess.run([self.bin, 'batch'], input=text, stdout=subprocess.PIPE, stderr=subprocess.PIPE, text=True, timeout=timeout)
+        lines = [json.loads(l) for l in p.stdout.splitlines() if l.strip()]
+        if p.returncode != 0 or len(lines) != len(items):
+            raise RuntimeError(f'verif_replay batch: rc={p.returncode}, {len(lines)} answers for {len(items)} items: {p.stderr[-500:]}')
+        return lines
+
     def call(self, *args, timeout=30):
         self.ready()
         p = subprocess.run([self.bin] + list(args), stdout=subprocess.PIPE, stderr=subprocess.PIPE, text=True, timeout=timeout)
